@@ -14,6 +14,8 @@ use std::collections::BTreeSet;
 
 struct Out {
     fails: Vec<String>,
+    /// state changes by refused messages (reported under C04, not C05)
+    c04: Vec<String>,
     msgs: u64,
     deliveries: u64,
     seals: u64,
@@ -162,8 +164,16 @@ fn scenario<C: MlsConfig>(
                 out.cover.insert("receiver-reload".into());
             }
             let m = stream[mi].1.clone();
+            let before = if big_gap { Some(w.components(r)) } else { None };
             let (res, o) = w.with_group(r, |g| g.process_incoming_message(m));
             delivered += 1;
+            // C04 on this path: a message refused for its generation (too far ahead) leaves the receiver as it was
+            if let (Some(b), Res::Err(e)) = (&before, &res) {
+                let ch = World::<C>::changed(b, &w.components(r));
+                if !ch.is_empty() {
+                    out.c04.push(format!("a message refused with {e} changed {ch:?} of the receiver"));
+                }
+            }
             let gen_idx = stream[..=mi].iter().filter(|x| x.0 == stream[mi].0).count() as u64 - 1;
             match (&res, o) {
                 (Res::Ok, Some(ReceivedMessage::ApplicationMessage(a))) => {
@@ -238,7 +248,7 @@ pub fn run(o: &Opts) -> i32 {
     // (2) real groups
     let scen = o.u64("scenarios", if o.thorough() { 600 } else { 40 });
     let gaps = o.u64("gaps", if o.thorough() { 6 } else { 1 });
-    let mut out = Out { fails: vec![], msgs: 0, deliveries: 0, seals: 0, cover: Default::default(), samples: vec![] };
+    let mut out = Out { fails: vec![], c04: vec![], msgs: 0, deliveries: 0, seals: 0, cover: Default::default(), samples: vec![] };
     let log: SharedCryptoLog = Default::default();
     let mk = |s: &Setup, hd: &Handles, id, sk| mk_client(s, hd, id, sk);
     for i in 0..scen + gaps {
@@ -252,8 +262,18 @@ pub fn run(o: &Opts) -> i32 {
     println!("deliveries {}", out.deliveries);
     println!("aead_seals {}", out.seals);
     println!("cover {}", out.cover.iter().cloned().collect::<Vec<_>>().join(","));
-    println!("oracle_failures {}", out.fails.len());
-    std::fs::write(format!("{dir}/c05.failures"), out.fails.join("\n")).unwrap();
+    println!("other_property_failures {}", out.c04.len());
+    if let Some(x) = out.c04.first() {
+        println!("c04_sample {x}");
+    }
+    println!("oracle_failures {}", if o.str("focus", "") == "C04" { out.c04.len() } else { out.fails.len() });
+    // `--focus C04`: this run is part of the C04 check (state changes by refused messages); otherwise of C05 / C13
+    let c04_focus = o.str("focus", "") == "C04";
+    if c04_focus {
+        std::fs::write(format!("{dir}/c05.failures"), out.c04.iter().take(100).map(|f| format!("C04: {f}")).collect::<Vec<_>>().join("\n")).unwrap();
+    } else {
+        std::fs::write(format!("{dir}/c05.failures"), out.fails.iter().take(100).cloned().collect::<Vec<_>>().join("\n")).unwrap();
+    }
     std::fs::write(format!("{dir}/c05.samples"), out.samples.join("\n")).unwrap();
     0
 }
